@@ -16,6 +16,8 @@ pub mod brd;
 #[cfg(cozy_chess_verif)]
 pub mod full;
 #[cfg(cozy_chess_verif)]
+pub mod san;
+#[cfg(cozy_chess_verif)]
 pub mod c05;
 #[cfg(cozy_chess_verif)]
 pub mod c06;
@@ -61,6 +63,7 @@ pub fn registry() -> Vec<(&'static str, fn(&mut nd::Recorded))> {
     let mut v = Vec::new();
     v.extend(brd::registry());
     v.extend(full::registry());
+    v.extend(san::registry());
     v.extend(c05::registry());
     v.extend(c06::registry());
     v.extend(c08::registry());
